@@ -238,6 +238,10 @@ bool StepScript(InterpreterEnv& env)
                 return set_error(serror, SCRIPT_ERR_INVALID_STACK_OPERATION);
 
             const valtype& pubKeySerialized = stack.back();
+            // the redeem script is a script like the others: subject to the script size limit (it can only be this large when it was given as a
+            // plain stack argument; as a push of a scriptSig it is limited to 520 bytes anyway)
+            if (pubKeySerialized.size() > MAX_SCRIPT_SIZE)
+                return set_error(serror, SCRIPT_ERR_SCRIPT_SIZE);
             CScript pubKey2(pubKeySerialized.begin(), pubKeySerialized.end());
             script = pubKey2;
             popstack(stack);
